@@ -168,25 +168,25 @@ Definition canary_scan_node (rs : ers) (listed : list name) (items : list nitem)
       end
   end.
 
-(** [manageCanaryStatus]. [st0] is params.NewStatus (the status read, with the role conditions
-    already updated by [applyStrategy]); [read] is the status as read. Panic 4 = nil canary strategy. *)
-Definition manage_canary_status (rs : ers) (ann : eds_annots) (ocanary : option canary_spec) (now : time)
-           (canary_nodes listed : list name) (items : list nitem) (st0 : ers_status) : outcome canary_plan :=
+(** [manageCanaryPodFailures]: the evaluation of the checked pods and the condition updates.
+    Without a canary strategy (removed from the spec while the replica set is still listed as the canary)
+    nothing is evaluated and no condition is touched (repaired defect D15: it was a nil dereference);
+    Panic 4 = a nil canary sub-structure (excluded for defaulted specs). *)
+Definition canary_evaluate (ocanary : option canary_spec) (unpaused : bool) (now : time) (st0 : ers_status)
+           (failed0 paused0 : bool) (paused_reason0 : name) (check : list pod) : outcome (cloop * list cond) :=
+  match ocanary with
+  | None => Ok (MkCLoop failed0 R_EMPTY paused0 paused_reason0 zero_time false R_EMPTY, rs_conds st0)
+  | Some _ =>
   match canary_cfg_of ocanary with
   | None => Panic 4%N
   | Some cfg =>
-  let read := r_status rs in
-  let failed0 := canary_failed_rs read in
-  let '(paused0, paused_reason0) := canary_paused ann (Some read) in
-  let unpaused := canary_unpaused ann in
-  let s := fold_left (canary_scan_node rs listed items) canary_nodes (MkCScan 0 0 0 0 false [] [] []) in
   let start_cond := get_cond (rs_conds st0) CT_Canary in
   let restart_cond := get_cond (rs_conds st0) CT_PodRestarting in
   (* repaired (D6): a manual unpause lifts the pause even when no pod can be evaluated *)
   let '(paused1, paused_reason1) :=
     if unpaused && negb failed0 then (false, R_EMPTY) else (paused0, paused_reason0) in
   bind (canary_pod_loop cfg unpaused now start_cond restart_cond
-          (MkCLoop failed0 R_EMPTY paused1 paused_reason1 zero_time false R_EMPTY) (cn_check s))
+          (MkCLoop failed0 R_EMPTY paused1 paused_reason1 zero_time false R_EMPTY) check)
        (fun l =>
   let conds1 := update_cond (rs_conds st0) now CT_CanaryFailed (bool_to_cond (cl_failed l))
                             (cl_failed_reason l) no_name false true in
@@ -199,6 +199,21 @@ Definition manage_canary_status (rs : ers) (ann : eds_annots) (ocanary : option 
     else conds2 in
   let conds4 := update_cond conds3 now CT_PodCannotStart (bool_to_cond (cl_cannot_start l))
                             (cl_cs_reason l) (if N.eqb (cl_cs_reason l) R_EMPTY then M_EMPTY else M_OTHER) false true in
+  Ok (l, conds4))
+  end
+  end.
+
+(** [manageCanaryStatus]. [st0] is params.NewStatus (the status read, with the role conditions
+    already updated by [applyStrategy]). *)
+Definition manage_canary_status (rs : ers) (ann : eds_annots) (ocanary : option canary_spec) (now : time)
+           (canary_nodes listed : list name) (items : list nitem) (st0 : ers_status) : outcome canary_plan :=
+  let read := r_status rs in
+  let failed0 := canary_failed_rs read in
+  let '(paused0, paused_reason0) := canary_paused ann (Some read) in
+  let unpaused := canary_unpaused ann in
+  let s := fold_left (canary_scan_node rs listed items) canary_nodes (MkCScan 0 0 0 0 false [] [] []) in
+  bind (canary_evaluate ocanary unpaused now st0 failed0 paused0 paused_reason0 (cn_check s)) (fun lc =>
+  let '(l, conds4) := lc in
   let status_name := if cl_failed l then RS_CANARY_FAILED else RS_CANARY in
   let new_status := MkErsStatus status_name (cn_desired s) (cn_current s) (cn_ready s) (cn_available s)
                                 (rs_ignored st0) conds4 in
@@ -208,5 +223,4 @@ Definition manage_canary_status (rs : ers) (ann : eds_annots) (ocanary : option 
                  (negb (cl_failed l) && negb (cl_paused l) && negb (cn_desired s =? cn_ready s)) in
   Ok (MkCanaryPlan (if do_create then cn_create s else []) (cn_delete s)
                    (cl_failed l) (cl_failed_reason l) (cl_paused l) (cl_paused_reason l)
-                   unpaused new_status requeue))
-  end.
+                   unpaused new_status requeue)).
